@@ -35,12 +35,30 @@ def cases(tier, rng):
     for c in (["tcp", "tcp-starttls"] if thorough else ["tcp"]):
         line = "c02 %s 3 raw-idle" % c
         cs.append({"line": line, "key": line, "model": False, "tags": {"carrier": c, "k": 3, "sc": "raw-idle"}})
+    # bytes never cross: several connections transferring their own patterns both ways at the same time, with one and two scheduler threads
+    for c, k, n, procs in ([("tcp", 4, 2000000, 1), ("ws", 4, 1000000, 2)] + ([("kcp", 4, 500000, 1), ("stdio", 4, 1000000, 2), ("tcp", 8, 500000, 1)] if thorough else [])):
+        line = "c01par %s %d %d %d" % (c, k, n, procs)
+        cs.append({"line": line, "key": line, "model": False, "tags": {"carrier": c, "k": k, "sc": "parallel", "n": n}})
     return cs
 
 
 def oracle(case, impl):
     t = case["tags"]
     p = impl.split()
+    if t["sc"] == "parallel":
+        if not p or p[0] != "c":
+            return [("crash;carrier=" + t["carrier"], "scenario crashed: " + impl[:150])]
+        out = []
+        for part in impl.split(" c "):
+            w = part.split()
+            if w[0] == "c":
+                w = w[1:]
+            for d, got, diff in (("up", int(w[2]), int(w[3])), ("down", int(w[5]), int(w[6]))):
+                if diff != -1 and diff < got:
+                    out.append(("bytes-crossed;carrier=" + t["carrier"], "connection %s of %d concurrent ones received foreign or altered octets %s at offset %d (%s)" % (w[0], t["k"], d, diff, case["line"])))
+                elif got != t["n"]:
+                    out.append(("starved-by-others;carrier=" + t["carrier"], "connection %s of %d concurrent ones received %d of %d octets %s (%s)" % (w[0], t["k"], got, t["n"], d, case["line"])))
+        return out[:3]
     if not p or p[0] in ("panic", "died", "timeout", "harness-error", "setup"):
         return [("crash;carrier=" + t["carrier"], "scenario crashed: " + impl[:150])]
     if "first-half" in p or "second-half" in p:
